@@ -218,16 +218,23 @@ type recordingTransport struct {
 	mu   sync.Mutex
 	reqs map[string]*protoCommonV1.TaskRequest
 	ord  []string
+	// onSend, when set, runs after the request was recorded, still inside SendRequest: a node that answers before the
+	// sender goes on to the next target
+	onSend func(target string)
 }
 
 func (t *recordingTransport) SendRequest(target string, req *protoCommonV1.TaskRequest) error {
 	t.mu.Lock()
-	defer t.mu.Unlock()
 	if t.reqs == nil {
 		t.reqs = map[string]*protoCommonV1.TaskRequest{}
 	}
 	t.reqs[target] = req
 	t.ord = append(t.ord, target)
+	h := t.onSend
+	t.mu.Unlock()
+	if h != nil {
+		h(target)
+	}
 	return nil
 }
 func (t *recordingTransport) SendResponse(string, *protoCommonV1.TaskResponse) error { return nil }
